@@ -67,7 +67,7 @@ def header_plan(rng, n_fields=6, kinds=None, heuristic_safe=False):
     """Choose fields and a behaviour for each: returns callable (i,x,t)->dict and a description.
     kinds: 'const', 'vary', 'dup', 'coincide' (varies but first==last), 'extreme'"""
     avoid = {int(TF.INLINE_3D), int(TF.CROSSLINE_3D), int(TF.TRACE_SAMPLE_COUNT), int(TF.TRACE_SAMPLE_INTERVAL),
-             int(TF.DelayRecordingTime), int(TF.offset)}   # offset (37) takes part in segyio's sorting detection
+             int(TF.DelayRecordingTime), int(TF.offset), int(TF.ScalarTraceHeader)}   # (215 scales the delay time in segyio)   # offset (37) takes part in segyio's sorting detection
     cand = [c for c in ALL_FIELDS if c not in avoid]
     fields = list(rng.choice(cand, size=min(n_fields, len(cand)), replace=False))
     kinds = kinds or ['const', 'vary', 'dup', 'coincide', 'extreme', 'vary', 'const', 'vary0', 'const0last']
